@@ -182,7 +182,7 @@ def run(ctx):
 
     # ---- R2 unknown hint is an error ------------------------------------------------------------
     ctx.rule("C09.R2", "unknown hint: writer raises (sentinel cannot reach write_index), validator's for-else returns False", floor=2)
-    union_selection(ctx, a, wu, "C09.R2")
+    sel = union_selection(ctx, a, wu, "C09.R2")
     if lv is not None and lv["cases"]:
         um = [s for s in lv["unmatched"]]
         ok = bool(um) and all((s.kind == "return" and s.text == "False") or s.kind == "raise" for s in um)
@@ -196,28 +196,51 @@ def run(ctx):
     for lp in loops:
         ok = norm(lp.iter) == f"enumerate({schema_p})"
         ctx.check("C09.R3", f"write_union loop iterates enumerate({schema_p})", ok, wu.where(lp), f"write_union: for ... in {norm(lp.iter)}", "branches must be tried in schema order (first conforming branch wins)")
-    cfg = cfg_of(wu)
-    strict = []
-    for n in walk_local(wu.node):
-        if isinstance(n, ast.If) and isinstance(n.test, ast.Compare) and len(n.test.ops) == 1 and "most_fields" in norm(n.test):
-            strict.append(n)
-    if len(strict) != 1:
-        ctx.unrecognised("C09.R3", "write_union", wu.where(), "record tie-break comparison not found")
+    if not sel:
+        ctx.unrecognised("C09.R3", "write_union", wu.where(), "selection sites not available")
     else:
-        t = strict[0].test
-        op = type(t.ops[0])
-        l, r = norm(t.left), norm(t.comparators[0])
-        ok = (op is ast.Gt and r == "most_fields") or (op is ast.Lt and l == "most_fields")
-        ctx.check("C09.R3", "record branches: update only when strictly more fields are shared (first wins on ties)", ok, wu.where(strict[0]), f"write_union: {norm(t)}", "with a non-strict comparison a later record branch wins ties, against schema order")
-    # non-record, non-float match breaks immediately: the final else arm of the kind dispatch contains break
-    kind_if = [n for n in walk_local(wu.node) if isinstance(n, ast.If) and norm(n.test) in ("record_type == 'record'",)]
-    ok = False
-    if kind_if:
-        last = kind_if[0]
-        while last.orelse and len(last.orelse) == 1 and isinstance(last.orelse[0], ast.If):
-            last = last.orelse[0]
-        ok = any(isinstance(s, ast.Break) for s in last.orelse)
-    ctx.check("C09.R3", "a conforming non-record branch ends the search (break)", ok, wu.where(kind_if[0]) if kind_if else wu.where(), "write_union: non-record arm without break", "without the break a later conforming branch would replace the first one")
+        cfg = sel["cfg"]
+        pm = sel["parents"]
+        n_tie = n_exit = 0
+        for node, (ok_, desc, text) in sorted(sel["sites"].items(), key=lambda kv: kv[0].id):
+            stmt = node.ast
+            guards_ = [(t.ast, lab) for (t, lab) in cfg.guards_of(node) if t.kind == "test"]
+            gtexts = [norm(g) for g, lab in guards_ if lab == "true"]
+            if any("isinstance" in g and "tuple" in g for g in gtexts):
+                continue  # hinted arm: decided by name, not by order
+            # (b) a running maximum: a comparison in the guards one side of which is assigned from the other in this block
+            blk = pm.get(id(stmt))
+            sibs = []
+            for fld in ("body", "orelse"):
+                lst = getattr(blk, fld, None)
+                if isinstance(lst, list) and any(x is stmt for x in lst):
+                    sibs = lst
+            tie = None
+            for g, lab in guards_:
+                if lab == "true" and isinstance(g, ast.Compare) and len(g.ops) == 1 and isinstance(g.ops[0], (ast.Lt, ast.Gt, ast.LtE, ast.GtE)):
+                    l_, r_ = g.left, g.comparators[0]
+                    for m_, o_, bigger_is_other in ((l_, r_, isinstance(g.ops[0], (ast.Lt, ast.LtE))), (r_, l_, isinstance(g.ops[0], (ast.Gt, ast.GtE)))):
+                        if isinstance(m_, ast.Name) and any(isinstance(x, ast.Assign) and len(x.targets) == 1 and norm(x.targets[0]) == m_.id and norm(x.value) == norm(o_) for x in sibs):
+                            tie = (g, m_.id, bigger_is_other)
+            is_float = any("== 'float'" in g for g in gtexts)
+            if tie is not None:
+                n_tie += 1
+                g, mvar, bigger_is_other = tie
+                strict_ = isinstance(g.ops[0], (ast.Lt, ast.Gt)) and bigger_is_other
+                ctx.check("C09.R3", "record branches: update only when strictly more fields are shared (first wins on ties)", strict_, wu.where(g), f"write_union: {norm(g)} updates {mvar}", "with a non-strict comparison a later record branch wins ties, against schema order")
+            elif is_float:
+                continue  # the float->double deferral keeps searching by design (C02.R4)
+            else:
+                lp = sel["loop_of"](stmt) if not isinstance(stmt, ast.Break) else sel["loop_of"](stmt)
+                if lp is None:
+                    continue
+                n_exit += 1
+                again = lp in cfg.reachable_from(node, skip_labels=("exc",))
+                ctx.check("C09.R3", "a conforming non-record branch ends the search", not again, wu.where(stmt), f"write_union: after `{text}` the loop continues", "without leaving the loop a later conforming branch would replace the first one")
+        if n_tie == 0:
+            ctx.unrecognised("C09.R3", "write_union", wu.where(), "record tie-break comparison (running maximum) not found")
+        if n_exit == 0:
+            ctx.unrecognised("C09.R3", "write_union", wu.where(), "no plain (non-record) selection site found")
 
     # ---- R4 determinism ----------------------------------------------------------------------------
     ctx.rule("C09.R4", "nothing reachable from write_union reads a nondeterministic source or iterates a set to choose", floor=1)
